@@ -97,7 +97,9 @@ macro_rules! kat {
                     t.update(dg.as_bytes());
                     let ver = hsk.get_public_key().verify(&m, &sig, &[]);
                     t.update([u8::from(dg == want), u8::from(ver)]);
-                    println!("HOSTILE {} {}", $name, if dg == want && ver { "ok" } else { "FAIL-differs-from-reference" });
+                    // (whether that signature verifies under the derived key is recorded, not judged: t0 and tr of
+                    // this key are arbitrary, so the hints need not be the ones the public key expects)
+                    println!("HOSTILE {} {}", $name, if dg == want { "ok" } else { "FAIL-differs-from-reference" });
                 }
                 Err(e) => {
                     t.update(e.as_bytes());
